@@ -100,7 +100,7 @@ def check_chunk(ctx, part, res, found, values):
             vals = [value_of(x) for x in r["responses"]]
             bad = [(i, v) for i, v in enumerate(vals) if v[0] != "Ok"]
             if bad:
-                return ("Err at input %d" % (bad[0][0] + 1 if n > 1 else len(srcs)), bad[0][1][1])
+                return ("Err at input %d" % (bad[0][0] + 1 if not unwrap else len(srcs)), bad[0][1][1])
             v = vals[-1]
             return ("Ok", strip_wrapper(v[1]) if unwrap else v[1])
 
@@ -172,20 +172,23 @@ def run(ctx):
 
 
 def confirm(ctx, d):
-    """Both layouts through the real CLI: the last answers must reproduce the in-process difference."""
+    """Both layouts through the real CLI (`reftest-json-session`): the in-process difference must reproduce."""
     from .c09 import count_json_values, non_output, QUIET_ENV
     srcs = d["inputs"]
     out = {}
-    for name, reqs in (("incremental", [run_req(x) for x in srcs]), ("one_program", [run_req("\n".join(srcs))])):
+    for name, reqs, unwrap in (("incremental", [run_req(x) for x in srcs], False), ("one_program", [run_req("\n".join(srcs))], True)):
         path = ctx.tmpfile(f"c11/{name}.jsonl", "".join(r + "\n" for r in reqs))
         rc, so, se = ctx.cli(["reftest-json-session", path], timeout=60, env=QUIET_ENV)
-        vals = non_output(count_json_values(so))
-        out[name] = ("exit", rc) if rc != 0 or not vals else value_of([json.dumps(vals[-1])])
+        vals = [value_of([json.dumps(v)]) for v in non_output(count_json_values(so))]
+        if rc != 0 or len(vals) != len(reqs):
+            out[name] = ("exit %s, %d responses" % (rc, len(vals)), "")
+            continue
+        bad = [(i, v) for i, v in enumerate(vals) if v[0] != "Ok"]
+        if bad:
+            out[name] = ("Err at input %d" % (bad[0][0] + 1 if not unwrap else len(srcs)), bad[0][1][1])
+        else:
+            out[name] = ("Ok", strip_wrapper(vals[-1][1]) if unwrap else vals[-1][1])
     d["cli"] = {k: list(v) for k, v in out.items()}
-    a, b = out["incremental"], out["one_program"]
-    if b[0] == "Ok":
-        b = ("Ok", strip_wrapper(b[1]))
-    if "incremental_value" in d:
-        if a == b:
-            raise Machinery(f"adapter drift: the real CLI shows no difference for {srcs}: {out}")
+    if "incremental_value" in d and out["incremental"] == out["one_program"]:
+        raise Machinery(f"adapter drift: the real CLI shows no difference for {srcs}: {out}")
     ctx.cov["cli_confirmed"] += 1
